@@ -564,6 +564,14 @@ func (a *Analyzer) Feed(r *ev.Rec) {
 		}
 	case "harness-error":
 		a.rep.Inconclusive = append(a.rep.Inconclusive, "harness error: "+r.Err)
+	case "lifecycle":
+		a.stat("lifecycle:" + r.Op + ":" + r.Kind)
+		if r.Kind == "hangs" {
+			a.find("C15", "shutdown-does-not-finish", "shutdown-does-not-finish:"+r.Op, r.Q, "%s: Shutdown did not return within 20 heartbeat timeouts (%s)", r.Op, r.Note)
+		}
+		if r.Kind == "panics" {
+			a.find("C15", "call-panics-instead-of-returning-an-error", "call-panics:"+r.Op, r.Q, "%s panics: %s", r.Op, r.Note)
+		}
 	case "foreign-dialer-outcome":
 		a.stat("foreign-dialer:" + r.Kind)
 		if r.Kind == "no-election" {
